@@ -621,6 +621,40 @@ func (b *burst) judgeBurst() (violation string, overlaps int, waiters int) {
 				c.Keys[0], c.Call, c.Err, c.ErrID, firstRet[idKey{c.ErrID, c.Keys[0]}]), overlaps, waiters
 		}
 	}
+	// (3b) without writes and evictions a value some loader supplied for a key (asked for or volunteered)
+	// stays cached unless a load of that key answered not-found: a reload that fails keeps the old value,
+	// a successful one replaces it
+	if !cfg.Mixed && cfg.Max == 0 {
+		supplied := map[int]int{} // key -> id of an invocation that supplied it
+		notFound := map[int]bool{}
+		for _, in := range b.invs {
+			switch in.Out {
+			case loValue:
+				for k := range in.Vals {
+					supplied[k] = in.ID
+				}
+				if in.Bulk {
+					for _, k := range in.Keys {
+						if _, ok := in.Vals[k]; !ok {
+							notFound[k] = true
+						}
+					}
+				}
+			case loNotFound:
+				for _, k := range in.Keys {
+					notFound[k] = true
+				}
+			}
+		}
+		for k, id := range supplied {
+			if notFound[k] {
+				continue
+			}
+			if _, ok := b.cache.GetEntryQuietly(k); !ok {
+				return fmt.Sprintf("key %d is absent at quiescence although loader invocation #%d supplied a value for it, no load of it ever answered not-found, and the burst contains no write, invalidation or eviction", k, id), overlaps, waiters
+			}
+		}
+	}
 	// (4) nothing left in flight
 	if n := b.cache.VerifCalls(); n != 0 {
 		return fmt.Sprintf("%d in-flight load records are left after every call returned and the executor is idle", n), overlaps, waiters
